@@ -457,7 +457,13 @@ func c03AnalyseUDP(k c03Case, o *c03Outcome) *c03Wire {
 			items = append(items, item{ord, fmt.Sprintf("i:%d", seg.UnAck)})
 		}
 	}
-	items = append(items, item{4*o.closeCall + 1, "C"}, item{4*o.closeRet + 1, "X"})
+	// "Close returned" is placed 50 ms late: the output loop may be in the middle of writing a segment
+	// it had already dequeued when closeWithError discards the queues
+	closeRet := o.closeRet
+	for closeRet < len(ds) && ds[closeRet].At <= o.closeRetAt+50*time.Millisecond {
+		closeRet++
+	}
+	items = append(items, item{4*o.closeCall + 1, "C"}, item{4*closeRet + 1, "X"})
 	sort.SliceStable(items, func(i, j int) bool { return items[i].order < items[j].order })
 	// every segment is written before anything else happens (a valid linearisation: writes have no
 	// precondition in the model and all of d was handed to Write before Close was called)
